@@ -749,6 +749,25 @@ E2E_ASSUME = ["event-atomic driving (synctest.Wait after every API call start / 
               "client KeepAlive = 60000 s: the keep-alive loop of the client (not in the client model) never ticks within a history",
               "termination of the gateway session is compared as a fact only (end times are C13's)",
               "histories with two deadlines of the system at one virtual instant are not generated"]
+KA_RULE = ("model-guided random walks of the client library WITH the keep-alive loop running (ocaml/gen_cl.ml run_ka: KeepAlive 1-3 s, "
+           "frequent sleep cycles, API calls of every kind, a scripted gateway that answers the loop's pings most of the time, late "
+           "or not at all; advances around the ticks of the ticker and the retry deadlines), executed on the real client.Client under "
+           "testing/synctest and compared output-by-output with the extracted keep-alive wrapper model (ka_step); two corpus witnesses "
+           "run first; the monitor kmon runs on the implementation's outputs and on the model's own")
+PROPS["C33"] = {
+    "theorems": ["C33_loop_pings_only_when_active", "C33_refuted_retransmission_while_asleep", "C33_refuted_ping_call_fails"],
+    "drivers": ["drv_client.test"],
+    "units": [Unit("drv_client_ka", unit_client_ka)],
+    "mismatch_kinds": [r"."],
+    "rule": KA_RULE,
+    "assumptions": ["event-atomic driving; API returns and EXIT of one instant are compared as a set",
+                    "histories with two deadlines (timers, ticker) at one virtual instant are not generated",
+                    "outside the sequential model (counted as outside_keepalive_model, nothing is compared or judged after that "
+                    "point): a state change while the loop is inside a ping AND the capacity-1 channel already holds an unread change "
+                    "(the sender blocks in notifyStateChange); a pending tick and a pending state change both ready when a ping returns "
+                    "(Go's select takes either)",
+                    "timer channel semantics of Go >= 1.23 (the harness module): Stop/Reset discard a pending tick"],
+}
 PROPS["C26"] = {
     "theorems": ["C26_connect_then_simple_calls", "C26_and_final_disconnect", "C26_refuted"],
     "drivers": ["drv_e2e.test"],
